@@ -34,6 +34,8 @@ THEOREMS = [
     "SleapVerif.C15.oks_entry",
     "SleapVerif.C15.oks_none_iff",
     "SleapVerif.C15.oks_range_novisible_counterexample",
+    "SleapVerif.C15.oks_total_partial",
+    "SleapVerif.C15.oks_total_asIs_counterexample",
     "SleapVerif.C15.match_conservation",
     "SleapVerif.C15.match_gt_at_most_once",
     "SleapVerif.C15.match_pred_at_most_once",
@@ -53,6 +55,7 @@ THEOREMS = [
 EPS = Fraction(2) ** -52  # np.spacing(1)
 TOL = 1e-9
 SIG_EMPTY_GT = "empty_gt_nonempty_pred"
+SIG_NPR = "compute_oks_n_pr_not_one"
 
 
 # ----------------------------------------------------------------------------- helpers
@@ -141,7 +144,7 @@ def oks_line(coco, sds, gts, scales, prs):
 
 def parse_oks(out):
     t = out.split()
-    if t[0] != "ok":
+    if t[0] not in ("ok", "raise"):
         raise RuntimeError("driver: " + out)
     n, m = int(t[1]), int(t[2])
     vals = [unrat(x) for x in t[3:]]
@@ -183,17 +186,45 @@ def main(chk: Check):
         r = call(ev.match_instances, fg, fp)
         chk.known_replay("F-C15", still_fails=(r[0] == "raise"), detail=str(r)[:200])
 
+    ent = next((f for f in chk.known if f["id"] == "F-C15b"), None)
+    if ent is not None:
+        w = ent["witness"]
+        r = call(ev.compute_oks, np.array(w["points_gt"], float), np.array(w["points_pr"], float))
+        chk.known_replay("F-C15b", still_fails=(r[0] == "raise"), detail=str(r)[:200])
+
     # ================================================================== 1. compute_oks
+    state = {"broadcast_raises": 0}
+
+    def compute_oks_any(G, Pm, **kw):
+        """`compute_oks` for any n_pr.  On the pinned tree the call raises IndexError whenever
+        n_pr != 1 (F-C15b: a (n_gt,1,n_nodes) boolean mask indexes a (n_gt,n_pr,n_nodes) array);
+        the failure is recorded and the matrix is then assembled from one real call per
+        prediction so that the values are still compared."""
+        state["last_direct_raise"] = False
+        try:
+            return ev.compute_oks(G, Pm, **kw)
+        except IndexError as e:
+            state["last_direct_raise"] = True
+            if Pm.shape[0] == 1 or "boolean index did not match" not in str(e):
+                raise
+            state["broadcast_raises"] += 1
+            if state["broadcast_raises"] <= 3:
+                chk.fail("compute_oks raises IndexError for n_pr != 1 (documented shape (n_pr, n_nodes, n_ed))",
+                         {"points_gt": G.tolist(), "points_pr": Pm.tolist()},
+                         observed=f"IndexError: {e}", signatures=[SIG_NPR])
+            cols = [ev.compute_oks(G, Pm[j:j + 1], **kw) for j in range(Pm.shape[0])]
+            return np.concatenate(cols, axis=1) if cols else np.zeros((G.shape[0], 0))
+
     def oks_impl(gts, prs, scale, stddev, coco, n_nodes):
         G = np.array(gts, dtype=np.float64).reshape(len(gts), n_nodes, 2)
         Pm = np.array(prs, dtype=np.float64).reshape(len(prs), n_nodes, 2)
-        return ev.compute_oks(G, Pm, scale=scale, stddev=stddev, use_cocoeval=coco)
+        return compute_oks_any(G, Pm, scale=scale, stddev=stddev, use_cocoeval=coco)
 
     def oks_property_oracle(gts, prs, scale, stddev, coco, n_nodes, case):
         """independent restatement of the OKS clauses on the implementation's output"""
         G = np.array(gts, dtype=np.float64).reshape(len(gts), n_nodes, 2)
         Pm = np.array(prs, dtype=np.float64).reshape(len(prs), n_nodes, 2)
-        f = lambda g, p, sc=scale: ev.compute_oks(g, p, scale=sc, stddev=stddev, use_cocoeval=coco)
+        f = lambda g, p, sc=scale: compute_oks_any(g, p, scale=sc, stddev=stddev, use_cocoeval=coco)
         base = f(G, Pm)
         visg = ~np.isnan(G).any(-1)
         ok_rows = visg.sum(-1) >= 1
@@ -307,6 +338,9 @@ def main(chk: Check):
             "stddev": stddev if np.isscalar(stddev) else stddev.tolist(), "use_cocoeval": coco}
         r = call(oks_impl, gts, prs, scale, stddev, coco, n_nodes)
         model = parse_oks(out)
+        if state.get("last_direct_raise") and out.split()[0] != "raise":
+            chk.disagree("compute_oks raised IndexError where the as-is model does not", case, "raise", out.split()[0])
+        chk.tag("oks_asis:" + out.split()[0])
         if r[0] != "ok":
             chk.case(None, tags=tags)
             chk.disagree("compute_oks raised", case, r, "ok")
@@ -356,8 +390,12 @@ def main(chk: Check):
         scale = rng.choice([None, None, q16(rng, 1, 400)])
         stddev = rng.choice([0.025, 0.05, 0.107, 0.5])
         fg, fp, gi, pi = frames_of(gts, prs, scores, n_nodes)
+        # what match_instances sees is Instance.numpy() (sleap_io turns a point whose x is NaN into
+        # (NaN, NaN) and keeps (x, NaN)); the model gets exactly those arrays
+        gts = [g.numpy() for g in gi]
+        prs = [p_.numpy() for p_ in pi]
         if n_gt and n_pr:
-            M = ev.compute_oks(np.stack(gts), np.stack(prs), scale=scale, stddev=stddev)
+            M = compute_oks_any(np.stack(gts), np.stack(prs), scale=scale, stddev=stddev)
         else:
             M = np.zeros((n_gt, n_pr))
         flat = [nan2none(v) for v in M.reshape(-1)]
